@@ -26,6 +26,8 @@ TotalFails(r) ==
 TypingFails(e) ==
   LET c == e.cls   w == e.seq   r == e.res   n == Len(w)
       answered == r.exc = "" /\ r.valid /\ NoQueryRaised(r)
+      \* "accepts" = answers: whenever the queries return values (even after is_valid said no) they are judged
+      reports  == r.exc = "" /\ Len(r.qexc) > 0 /\ NoQueryRaised(r)
       t == Typing(c.toks, c.enz, c.role, w)
       nuc == IsNucWord(w)
   IN
@@ -38,7 +40,7 @@ TypingFails(e) ==
               THEN Chk("X:TypingValues", r.up = t.up /\ r.down = t.down /\ r.tgt = t.tgt /\ (c.role = "module" \/ r.ph = t.ph))
               ELSE {}))
   \* C04: what is reported is a pair of true restriction ends and the stretch between them
-  \cup (IF answered
+  \cup (IF reports
         THEN Chk("C04:DigestAgreement", DigestWitness(w, c.enz, c.role, r.up, r.down, r.tgt, << >>))
              \cup (IF c.flank THEN Chk("C04:NoInnerCut", NoInnerCut(w, c.enz, r.tgt)) ELSE {})
              \cup (IF c.role = "vector"
